@@ -96,10 +96,10 @@ func init() {
 			return nil
 		},
 		Phases: []fw.Phase{
-			{Name: "trie-S1-bytes", Space: "S1^<=4 x 6 modes", Share: 4,
-				Run: func(w *fw.W) { w.Trie(alpha.S1, 0, 4) }, Eval: evalC16},
-			{Name: "trie-S1core-deep", Space: "S1core^5..6 x 6 modes", Share: 4, ThoroughOnly: true,
-				Run: func(w *fw.W) { w.Trie(alpha.S1core, 5, 6) }, Eval: evalC16},
+			{Name: "trie-S1-bytes", Space: "S1^<=3 (quick) / <=4 (thorough) x 6 modes", Share: 4,
+				Run: func(w *fw.W) { w.Trie(alpha.S1, 0, w.Pick(3, 4)) }, Eval: evalC16},
+			{Name: "trie-S1core-deep", Space: "S1core^4..5 (quick) / ^4..6 (thorough) x 6 modes", Share: 4,
+				Run: func(w *fw.W) { w.Trie(alpha.S1core, 4, w.Pick(5, 6)) }, Eval: evalC16},
 			{Name: "trie-S2-fragments", Space: "S2^<=4 x 6 modes", Share: 3,
 				Run: func(w *fw.W) { w.Trie(alpha.S2, 1, 4) }, Eval: evalC16},
 			{Name: "corpus-cuts", Space: "all fixture cuts x 6 modes", Share: 1,
